@@ -316,7 +316,8 @@ PROPS["C13"] = dict(
          "history must be linearizable w.r.t. the model. non-trivial = K1 case with a successful Rollback followed by a Get that "
          "returns a value (replay), or K2 history in which a Get returned a value; distinct by op sequence",
     stages=[corr_stage("C13K1", 2500, 6000, feature=feat_c13, seeds=3),
-            corr_stage("C13K2", 1500, 4000, feature=feat_c13, seeds=3)],
+            corr_stage("C13K2", 1500, 4000, feature=feat_c13, seeds=3),
+            corr_stage("C13WIN", 40, 300, validate=False)],
 )
 PROPS["C03"] = dict(
     pre_coq=[lambda: c03_pre_coq()],
